@@ -72,8 +72,6 @@ def check(run):
                         'bytes (any legal length encoding) is accepted by the frame checks', 6)
     with R.as_rule('C14.interleave'):
         C05.track(R)             # a Ping between text fragments does not disturb the text tracking / validator state
-    with R.as_rule('C14.payload'):
-        _C01.alias(R)            # the Ping payload the Pong repeats is a private copy, not a view of the receive buffer
     with R.as_rule('C14.whole'):
         _C11.locked(R)
     _C01.accept(R, RID='C14.whole')
@@ -88,6 +86,8 @@ def check(run):
     bound(R)
     C05.route(R, RID='C14.route')
 
+    with R.as_rule('C14.payload'):
+        _C01.alias(R)            # the Ping payload the Pong repeats is a private copy, not a view of the receive buffer
 
 def _feed_loop(R, g, rd):
     for n in g.live_nodes():
